@@ -191,18 +191,13 @@ def theorems_in(module):
 def audit(ctx, spec):
     """forbidden-construct grep over all project sources + axioms of every theorem in the property's namespace"""
     bad = []
-    for root, _, files in os.walk(LEAN):
-        if ".lake" in root:
-            continue
-        for f in files:
-            if not f.endswith(".lean"):
-                continue
-            txt = open(os.path.join(root, f)).read()
-            txt = re.sub(r"/-.*?-/", lambda m: "\n" * m.group(0).count("\n"), txt, flags=re.S)
-            for i, l in enumerate(txt.splitlines()):
-                l = l.split("--")[0]
-                if FORBIDDEN.search(l):
-                    bad.append("%s:%d: %s" % (os.path.relpath(os.path.join(root, f), LEAN), i + 1, l.strip()[:120]))
+    for path in import_closure(spec["modules"] + ["Driver"]):
+        txt = open(path).read()
+        txt = re.sub(r"/-.*?-/", lambda m: "\n" * m.group(0).count("\n"), txt, flags=re.S)
+        for i, l in enumerate(txt.splitlines()):
+            l = l.split("--")[0]
+            if FORBIDDEN.search(l):
+                bad.append("%s:%d: %s" % (os.path.relpath(path, LEAN), i + 1, l.strip()[:120]))
     ctx.audit["forbidden"] = bad
     thms = {}
     if ctx.lean_ok:
@@ -229,6 +224,23 @@ def audit(ctx, spec):
     ctx.audit["bad_axioms"] = {t: [a for a in axs if a not in ALLOWED_AXIOMS] for t, axs in thms.items()
                                if any(a not in ALLOWED_AXIOMS for a in axs)}
     return ctx.audit
+
+
+def import_closure(modules):
+    """source files of the project that the given modules import, transitively"""
+    seen, todo = {}, list(modules)
+    while todo:
+        m = todo.pop()
+        if m in seen:
+            continue
+        p = os.path.join(LEAN, m.replace(".", "/") + ".lean")
+        if not os.path.exists(p):
+            continue
+        seen[m] = p
+        for im in re.findall(r"^import\s+(\S+)", open(p).read(), re.M):
+            if im.startswith("MemVerif"):
+                todo.append(im)
+    return sorted(seen.values())
 
 
 def leanchecker(ctx, spec):
